@@ -11,7 +11,7 @@ def model_value(mdl, v):
     if isinstance(v, (int, bool)): return v
     r = mdl.eval(v, model_completion=True)
     if z3.is_bool(r): return z3.is_true(r)
-    if z3.is_bv(r): return r.as_long()
+    if z3.is_bv(r): return r.as_signed_long() if r.size() == 64 else r.as_long()
     if z3.is_int(r): return r.as_long()
     return str(r)
 
